@@ -138,6 +138,8 @@ impl LogWriter {
         let pos = self.0.pos();
 
         bincode::serialize_into(&mut self.0, entry)?;
+        #[cfg(feature = "verif")]
+        crate::verif::point("append:before_flush");
         self.0.flush()?;
 
         let len = self.0.pos() - pos;
